@@ -81,6 +81,7 @@ type Config struct {
 	Background bool      `json:"background_ctx,omitempty"` // call Mine with context.Background()
 	ForeignCtx bool      `json:"foreign_ctx,omitempty"`    // the context is the caller's own implementation of context.Context, not one from package context
 	PassOver   bool      `json:"pass_over,omitempty"`      // judge the pass-over clause (single worker)
+	Crowd      int       `json:"crowd,omitempty"`          // > 1: that many concurrent Mine calls (auto flavour only)
 	MustFind   bool      `json:"must_find,omitempty"`      // generator guarantees a qualifying nonce is reachable quickly
 }
 
@@ -342,11 +343,33 @@ func genMarathon(r *rand.Rand) *Config {
 	return c
 }
 
+// genCrowd: several concurrent Mine calls on an unattainable target, cancelled one after the other (crowd.go).
+func genCrowd(r *rand.Rand) *Config {
+	c := &Config{Prop: "C13", Version: 1 + r.IntN(2), Hash: "stub", TargetNote: "crowd finds:none"}
+	c.Crowd, c.Workers = pick(r, 2, 3, 5, 5), pick(r, 1, 2, 8, 64, 64)
+	data := genData(r)
+	c.DataHex = hex.EncodeToString(data)
+	L := len(data) + 8
+	if c.Version == 1 {
+		c.TargetBits = math.Float64bits(v1Target(L, 30+r.IntN(30), "safe"))
+	} else {
+		c.TargetBits = math.MaxUint64 / uint64(L) / uint64(1+r.IntN(1000))
+	}
+	c.Stub = &StubPlan{Seed: r.Uint64()}
+	c.Strat = StratSpec{Kind: pick(r, "roundrobin", "uniform", "roundrobin"), Seed: r.Uint64()}
+	c.Fault = FaultPlan{Kind: "cancel"}
+	c.StepCap = 1000
+	return c
+}
+
 // GenC13 draws the configuration of run seed for property C13.
 func GenC13(seed uint64, tier string) *Config {
 	r := kernel.NewRand(seed)
 	if Flavour != "race" && r.IntN(900) == 0 {
 		return genMarathon(r)
+	}
+	if Flavour == "auto" && r.IntN(300) == 0 {
+		return genCrowd(r)
 	}
 	maxW := 16
 	if tier == "thorough" {
